@@ -3,7 +3,7 @@
 Extension of the specification to system level (DESIGN.md Part B section 8): Workflow.tla models the abstract file
 system and the commands phase / unphase / stats / compare / haplotag / split / haplotagphase; MC_Workflow explores all
 workflows up to a small depth on tiny worlds; TLC-emitted workflows are replayed on real files through the CLI entry
-points and X01_Trace checks the invariants W1..W11 on the projected files.  Not a listed property: not in MANIFEST.json.
+points and X01_Trace checks the invariants W1..W12 on the projected files.  Not a listed property: not in MANIFEST.json.
 """
 import json
 import os
@@ -39,7 +39,7 @@ ASSUMPTIONS = [
     "W3a/W11 rely on `phase` being a deterministic function of its input (C16): --tag only changes the encoding",
     "three input classes hit genuine defects of whatshap found by this check (split --discard-unknown-reads on the haplotag list of a "
     "PAIRED-end BAM: AssertionError; haplotagphase on a VCF with a ./. call under a read: IndexError; compare counts ./. calls as "
-    "heterozygous, stats does not): these classes are only generated when WV_X01_HAZARD=1 or KNOWN_FINDINGS.json lists them for X01",
+    "heterozygous, stats does not): these classes are only generated when WV_X01_HAZARD=1 or KNOWN_FINDINGS(_EXTRA).json lists them for X01",
     "the projections (VCF text -> VcfModel calls via c13.project_call; stats/compare TSVs; BAM tags via pysam) are trusted",
 ]
 
@@ -72,7 +72,7 @@ def design_mc(ctx):
     d = 4 if q else 5
     r = tlc.model_check("MC_Workflow", cfg=_cfg(ctx, "mc_fixed", 4, 0, d, "fixed", ALL_CMDS, INVS), workers=NPROC, timeout=3000)
     r["what"] = (f"MC_Workflow: every workflow of <= {d} commands (all 7 commands, both tags, split with/without discard) on 4 structured "
-                 "worlds of 4 sites (two blocks + single-site read; block across a homozygous site; chain; unconnected): W1..W11 in every state")
+                 "worlds of 4 sites (two blocks + single-site read; block across a homozygous site; chain; unconnected): W1..W12 in every state")
     out.append(r)
     for nr, d in ([(1, 2)] if q else [(2, 2), (1, 3)]):
         r = tlc.model_check("MC_Workflow", cfg=_cfg(ctx, f"mc_all{nr}{d}", 3, nr, d, "all", ALL_CMDS, INVS), workers=NPROC, timeout=6000)
@@ -228,8 +228,8 @@ def instances(flow):
 
 
 # Input classes on which a command of the workflow fails for a reason that is a genuine defect of whatshap (found by this check,
-# reproduced stand-alone, reported).  X01 is not a registered property, KNOWN_FINDINGS.json is not mine to edit: a class is generated
-# only if WV_X01_HAZARD=1 or KNOWN_FINDINGS.json has a `known` entry for X01 / clause Returns with exactly this signature.
+# reproduced stand-alone, reported).  The findings files are not this module's to edit: a class is generated only if WV_X01_HAZARD=1
+# or KNOWN_FINDINGS.json / KNOWN_FINDINGS_EXTRA.json has a `known` entry for X01 with exactly this clause and signature.
 HAZARDS = {
     "paired_discard": ("Returns", "cmd=split exc=AssertionError paired_reads=yes discard_unknown_reads=yes"),
     "missing_gt_tagphase": ("Returns", "cmd=haplotagphase exc=IndexError missing_gt=yes"),
@@ -240,13 +240,15 @@ HAZARDS = {
 def _hazards_enabled():
     if os.environ.get("WV_X01_HAZARD"):
         return set(HAZARDS)
-    try:
-        with open("/verif/KNOWN_FINDINGS.json") as fh:
-            known = {(x.get("clause"), x.get("signature")) for x in json.load(fh)["findings"]
-                     if x.get("property") == PROP and x.get("status") == "known"}
-        return {k for k, cs in HAZARDS.items() if cs in known}
-    except Exception:
-        return set()
+    known = set()
+    for name in ("KNOWN_FINDINGS.json", "KNOWN_FINDINGS_EXTRA.json"):
+        try:
+            with open(os.path.join("/verif", name)) as fh:
+                known |= {(x.get("clause"), x.get("signature")) for x in json.load(fh)["findings"]
+                          if x.get("property") == PROP and x.get("status") == "known"}
+        except Exception:
+            pass
+    return {k for k, cs in HAZARDS.items() if cs in known}
 
 
 def make_world(rng, paired=True, noisy=False, missing_gt=True):
@@ -641,7 +643,7 @@ def selftest_corrupt(events):
 
 MANIFEST = {
     "text": "Workflow.tla: whatshap as commands over an abstract file system (typed abstract contents, provenance per file) with the "
-            "cross-command invariants W1..W11 (metamorphic relations between stats, compare, unphase, phase --tag PS/HP, haplotag, split, "
+            "cross-command invariants W1..W12 (metamorphic relations between stats, compare, unphase, phase --tag PS/HP, haplotag, split, "
             "haplotagphase) and a design of every command built from Stats.tla / Compare.tla / VcfModel.tla / Split.tla / TagPhaseChain.tla. "
             "MC_Workflow checks the invariants on every workflow up to 4-6 commands on tiny worlds; TLC emits workflows, they are replayed "
             "on real files through the CLI entry points and X01_Trace re-checks every invariant instance on the projected files.",
